@@ -72,7 +72,7 @@ impl Write for ScriptSink {
 
 // ---- call-indexed fault injection around an in-memory stream / sink ---------------------------
 #[derive(Clone)]
-enum RMode { Soft(u64), Err(usize, u32), Once(usize, u32), Eof(usize) }
+enum RMode { Soft(u64), Err(usize, u32), Once(usize, u32), ErrAt(usize, u32), Eof(usize) }
 struct FaultSrc { data: Vec<u8>, pos: usize, calls: usize, mode: RMode, rng: Rng, fired: std::rc::Rc<std::cell::Cell<bool>> }
 impl Read for FaultSrc {
     fn read(&mut self, buf: &mut [u8]) -> io::Result<usize> {
@@ -83,6 +83,9 @@ impl Read for FaultSrc {
             RMode::Err(j, k) if call >= j => { self.fired.set(true); return Err(io::Error::new(kind_of(k), "injected")) }
             // one-shot fault: exactly call j fails, the source works again afterwards
             RMode::Once(j, k) if call == j => { self.fired.set(true); return Err(io::Error::new(kind_of(k), "injected")) }
+            // fault by position: every call made when `off` bytes have been delivered fails
+            RMode::ErrAt(off, k) if self.pos >= off => { self.fired.set(true); return Err(io::Error::new(kind_of(k), "injected")) }
+            RMode::ErrAt(off, _) => end = off.min(end),
             RMode::Eof(k) => end = k.min(end),
             _ => {}
         }
@@ -221,7 +224,7 @@ fn write_fmt<W: Write>(fmt: &str, data: &[u8], sink: W) -> (Option<W>, Option<u3
 
 fn parse_rmode(s: &str) -> RMode {
     let v: Vec<&str> = s.split(':').collect();
-    match v[0] { "soft" => RMode::Soft(v[1].parse().unwrap()), "err" => RMode::Err(v[1].parse().unwrap(), v[2].parse().unwrap()), "once" => RMode::Once(v[1].parse().unwrap(), v[2].parse().unwrap()), _ => RMode::Eof(v[1].parse().unwrap()) }
+    match v[0] { "soft" => RMode::Soft(v[1].parse().unwrap()), "err" => RMode::Err(v[1].parse().unwrap(), v[2].parse().unwrap()), "once" => RMode::Once(v[1].parse().unwrap(), v[2].parse().unwrap()), "errat" => RMode::ErrAt(v[1].parse().unwrap(), v[2].parse().unwrap()), _ => RMode::Eof(v[1].parse().unwrap()) }
 }
 fn parse_wmode(s: &str) -> WMode {
     let v: Vec<&str> = s.split(':').collect();
@@ -272,10 +275,10 @@ pub fn exec(a: &[&str]) -> (String, String) {
                     (RMode::Soft(_), None) => "FAIL short reads / Interrupted change the decoded bytes".into(),
                     (RMode::Soft(_), Some(k)) => format!("FAIL short reads / Interrupted make the reader fail (kind {k})"),
                     // the source failed a call the reader actually made: the read has to fail
-                    (RMode::Err(_, _) | RMode::Once(_, _), None) if got == base && !fired.get() => "ok".into(),
-                    (RMode::Err(_, _) | RMode::Once(_, _), None) if got == base => "FAIL source error swallowed: the reader made the failing call and reports success".into(),
-                    (RMode::Err(_, _) | RMode::Once(_, _), None) => "FAIL source error swallowed: success with wrong or missing bytes".into(),
-                    (RMode::Err(_, k) | RMode::Once(_, k), Some(e)) => if e == *k && base.starts_with(&got) { "ok".into() } else if e != *k { format!("FAIL source error kind {k} reported as kind {e}") } else { "FAIL bytes before the error are not a prefix of the original".into() },
+                    (RMode::Err(_, _) | RMode::Once(_, _) | RMode::ErrAt(_, _), None) if got == base && !fired.get() => "ok".into(),
+                    (RMode::Err(_, _) | RMode::Once(_, _) | RMode::ErrAt(_, _), None) if got == base => "FAIL source error swallowed: the reader made the failing call and reports success".into(),
+                    (RMode::Err(_, _) | RMode::Once(_, _) | RMode::ErrAt(_, _), None) => "FAIL source error swallowed: success with wrong or missing bytes".into(),
+                    (RMode::Err(_, k) | RMode::Once(_, k) | RMode::ErrAt(_, k), Some(e)) => if e == *k && base.starts_with(&got) { "ok".into() } else if e != *k { format!("FAIL source error kind {k} reported as kind {e}") } else { "FAIL bytes before the error are not a prefix of the original".into() },
                     (RMode::Eof(_), None) if got == base => "ok".into(),
                     (RMode::Eof(_), None) => "FAIL truncated stream reported as success with wrong or missing bytes".into(),
                     (RMode::Eof(_), Some(_)) => if base.starts_with(&got) { "ok".into() } else { "FAIL bytes before the error are not a prefix of the original".into() },
@@ -375,6 +378,27 @@ pub fn gen(rng: &mut Rng, tier: &str, dist: &mut Dist) -> Vec<String> {
                 cmds.push(format!("fault_w {} {} err:{}:{}", fmt, hex(&data), rng.below(stream.len() as u64 / 2 + 4), *rng.pick(&kinds)));
             }
             cmds.push(format!("fault_w {} {} zero:{}", fmt, hex(&data), rng.below(stream.len() as u64 / 2 + 4)));
+        }
+    }
+    // (3) the last bytes of streams that end with an end marker (.lzma without declared size, LZIP members):
+    // whether the range decoder still fetches a byte behind the marker depends on the stream (about
+    // one in ten), so many short streams, each cut / failing at its last three bytes
+    let k = if tier == "thorough" { 600 } else { 80 };
+    for i in 0..k {
+        let fmt = if i % 2 == 0 { "lzma1" } else { "lzip" };
+        let len = 1 + rng.below(400) as usize;
+        let class = *rng.pick(&["text", "mixed", "random", "runs"]);
+        let data = gen_data_len(rng, class, len);
+        let (w, e, p) = write_fmt(fmt, &data, Vec::new());
+        if e.is_some() || p || w.is_none() { continue; }
+        let stream = w.unwrap();
+        dist.bump("stream_end_faults");
+        for back in 1..=3usize {
+            if stream.len() > back {
+                cmds.push(format!("fault_r {} {} eof:{}", fmt, hex(&stream), stream.len() - back));
+                let kind = *rng.pick(&[6u32, 9, 11]);
+                cmds.push(format!("fault_r {} {} errat:{}:{}", fmt, hex(&stream), stream.len() - back, kind));
+            }
         }
     }
     cmds
